@@ -297,6 +297,17 @@ def structural_cases(spec, pv):
             f[i][1].uuid = f[j][1].uuid
             yield ("uuid-of-%s:=uuid-of-%s" % (f[i][0], f[j][0]),
                    irgen.file_bytes(m, pv), False)
+    # ... and the same with every reference following (the file stays
+    # referentially closed): all occurrences of one UUID replaced by another
+    base_bytes = irgen.file_bytes(base, pv)
+    f0 = uuid_fields(base)
+    for i in range(n):
+        for j in range(n):
+            if i == j or f0[i][1].uuid == f0[j][1].uuid:
+                continue
+            yield ("uuid-of-%s-merged-into-uuid-of-%s" % (f0[i][0], f0[j][0]),
+                   base_bytes.replace(bytes(f0[i][1].uuid),
+                                      bytes(f0[j][1].uuid)), False)
     for i in range(n):
         for bad_len in (0, 15, 17):
             m = clone()
